@@ -2,6 +2,8 @@
 SPECIFICATION Spec
 CONSTANTS
   Variant = "required"
+  ShomateOwn <- MCShomateOwn
+  ClassFilter <- MCAllClasses
 INVARIANT TypeOK
 INVARIANT WellFormed
 INVARIANT Refines
